@@ -836,6 +836,9 @@ def run_checks(prop, ctx, vlib, want=("C08", "C01")):
                 known_lines.append("%s: %s [case: %s -> %s]" % (k["id"], k["what"], k["case"], o[:160]))
             else:
                 notes.append("witness of known finding %s no longer reproduces: %s -> %s" % (k["id"], k["case"], o[:200]))
+                # a listed finding that changed is reported (correspondence path), never passed over in silence
+                diffs.append(dict(driver="jx", case=k["case"], implementation=o[:300], model=k["implementation"][:300], judge="KNOWN-FINDING-CHANGED",
+                                  why="listed known finding %s no longer reproduces as recorded" % k["id"]))
 
     # ---------------- hand-made documents of the corpus: implementation vs model on the load (jx.load lines, UTF-8)
     lcases = [l for l in load_corpus(prop) if l.startswith("jx.load ")]
@@ -849,8 +852,10 @@ def run_checks(prop, ctx, vlib, want=("C08", "C01")):
         for l, a, b in zip(lcases, oi, om):
             bump("corpus load " + ("agrees" if a == b else "DIFFERS"))
             if a != b and not same_mod_nan(a, b):
-                diffs.append(dict(driver="jx", case=l, implementation=a[:300], model=b[:300], judge="HOLD",
-                                  why="model and implementation differ on a hand-made document of the corpus"))
+                # the fixed regression cases run first and are reported first: a repaired finding that returns shows up here
+                failing.append(dict(driver="jx", case=l, implementation=a[:300], model=b[:300], judge="FAIL",
+                                    document=bytes.fromhex(l.split(" ")[6]).decode("utf-8", "replace")[:300] if l.split(" ")[6] != "-" else "",
+                                    why="regression case of the corpus (corpus/%s.cases): the implementation no longer loads this hand-made document as recorded (the model's answer)" % prop))
 
     # ---------------- stage 1: save + load back on the implementation
     cases = []
@@ -1316,19 +1321,30 @@ def x_text(rng, s, opts):
         cut = rng.randrange(1, len(s))
 
         def part(x, as_cdata):
-            # (rendering, is a CDATA section); a CDATA section cannot hold "]]>" and a raw CR in it would be normalised
-            # (a white-space-only CDATA section is kept by pugixml but dropped by the model's px_filter, which does not
-            #  tell CDATA from plain character data: not generated here until the model distinguishes them)
-            if as_cdata and "]]>" not in x and "\r" not in x and x.strip(" \t\r\n") != "":
+            # (rendering, is a CDATA section); a CDATA section cannot hold "]]>" and a raw CR in it would be normalised.
+            # A CDATA section is always a node of pugixml's tree, also when it holds white space only
+            if as_cdata and "]]>" not in x and "\r" not in x:
                 return "<![CDATA[" + x + "]]>", True
             return x_text(rng, x, dict(opts, split=False, cdata=False)), False
         # the character data continues behind a comment / PI, or in / behind a CDATA section (seeded change S28: a GetText
-        # that joins only plain text nodes)
+        # that joins only plain text nodes); empty CDATA sections may stand between, before and behind the parts
         mode = rng.choice(["misc", "misc", "cd_b", "cd_a", "cd_both", "misc_cd_b", "cd_a_misc"])
         (a, ca), (b, cb) = part(s[:cut], mode in ("cd_a", "cd_both", "cd_a_misc")), part(s[cut:], mode in ("cd_b", "cd_both", "misc_cd_b"))
         mid = rng.choice(["<!--c-->", "<?p d?>", "<!-- -->"]) if (mode in ("misc", "misc_cd_b", "cd_a_misc") or not (ca or cb)) else ""
-        if (not ca and a.strip(" \t\r\n") == "") or (not cb and b.strip(" \t\r\n") == ""):
-            opts["split_ws"] = True       # a plain-text part is literal white space only: pugixml drops it (class J44w)
+        empty = "<![CDATA[]]>"
+        k = rng.random()
+        if k < 0.12:
+            mid = mid + empty
+        elif k < 0.2:
+            mid = empty + mid
+        elif k < 0.25:
+            a = empty + a
+        elif k < 0.3:
+            b = b + empty
+        # a PLAIN part (not a CDATA section) that is literal white space only: pugixml's parse flags drop it (class J44w)
+        if (not ca and s[:cut].strip(" \t\r\n") == "" and a.replace(empty, "").strip(" \t\r\n") == "") or \
+           (not cb and s[cut:].strip(" \t\r\n") == "" and b.replace(empty, "").strip(" \t\r\n") == ""):
+            opts["split_ws"] = True
         return a + mid + b
     return t
 
@@ -1511,6 +1527,18 @@ def stage3_xml(vlib, impl, model, rng, tier, docs, known_ids, want, bump, stats)
         mlines.append("m.parse xml utf8 %s" % (t3.encode("utf-8").hex() or "-"))
         mexp.append(t3)
     mout = vlib.run_driver(model, mlines)
+    # expat is lenient about VersionNum (version="1.1", "2.0", ... are read), the reference parser follows XML 1.0 (1.x only as
+    # written in the production): a text expat accepts and the reference parser rejects is excused ONLY if it is accepted, with
+    # the same DOM, once the value of version= is replaced by 1.0; everything else is a disagreement
+    import re as _re
+    vfix = {}
+    for t3, o in zip(mexp, mout):
+        if o == "REJECT":
+            t4 = _re.sub(r"""(version\s*=\s*)(["'])[^"']*\2""", lambda m: m.group(1) + m.group(2) + "1.0" + m.group(2), t3, count=1)
+            if t4 != t3:
+                vfix[t3] = t4
+    vkeys = sorted(vfix)
+    vout = dict(zip(vkeys, vlib.run_driver(model, ["m.parse xml utf8 %s" % (vfix[t].encode("utf-8").hex() or "-") for t in vkeys]))) if vkeys else {}
     for t3, o in zip(mexp, mout):
         stats["refparser_crosschecks"] += 1
         et = xdom_from_et(t3.encode("utf-8"))
@@ -1522,10 +1550,12 @@ def stage3_xml(vlib, impl, model, rng, tier, docs, known_ids, want, bump, stats)
             kind = "rejects / reads differently a text expat accepts"
         bump("refparser xml mutated " + ("agrees with ElementTree" if ok else "DISAGREES: " + kind))
         if not ok and et is not REJECT and o == "REJECT":
-            # expat is lenient in places (e.g. VersionNum) and reads DOCTYPE / namespaces, which the subset excludes
-            if len(notes) < 5:
-                notes.append("reference XML parser rejects a mutated text that expat accepts: %r" % t3[:120])
-            continue
+            o4 = vout.get(t3)
+            if o4 is not None and o4.startswith("DOM ") and xdom_norm(xdom_from_model(o4), False) == xdom_norm(et, False):
+                bump("refparser xml mutated: VersionNum leniency of expat (excused)")
+                if len(notes) < 5:
+                    notes.append("reference XML parser rejects a mutated text that expat accepts (VersionNum only): %r" % t3[:120])
+                continue
         if not ok and len(diffs) < 25:
             diffs.append(dict(driver="jx-model", case="m.parse xml utf8 <mutated>", model=o[:200], text=t3[:300], judge="HOLD",
                               why="the extracted XML reference parser " + kind))
